@@ -93,6 +93,7 @@ func c05Prop(c c05Case) ev.Outcome {
 	o.NonTrivial = c.N == 0 || c.N >= N || dupStraddle || (c.N < N && tableHasDupRows(c.Table))
 	o.Classes = append(o.Classes, "placement_"+c.Placement, fmt.Sprintf("retracting_%v", c.Retract), "order_"+c.Order)
 	o.Classes = append(o.Classes, timeClasses([]gen.TableSpec{c.Table}, spec)...)
+	o.Classes = append(o.Classes, listClasses([]gen.TableSpec{c.Table}, spec)...)
 	if c.N == 0 {
 		o.Classes = append(o.Classes, "limit_0")
 	}
@@ -137,6 +138,222 @@ func c05Prop(c c05Case) ev.Outcome {
 		o.Classes = append(o.Classes, "mode_"+mode)
 	}
 	return o
+}
+
+// ---- shared table generator -------------------------------------------------------------------------------------------
+
+// c05Sanitise rewrites cells so that every output mode prints them in a form the decoders read back unambiguously:
+// strings become short quote/separator-free words, huge ints small ones, printed lists stay narrower than the width at which
+// the table outputs wrap a cell.
+func c05Sanitise(tbl *gen.TableSpec) {
+	for i := range tbl.Rows {
+		for j := range tbl.Rows[i] {
+			if v := tbl.Rows[i][j]; v.K == "str" {
+				tbl.Rows[i][j] = gen.Str(map[bool]string{true: "xa", false: "yb"}[len(v.S)%2 == 0] + v.S[:1])
+			} else if v.K == "int" && (v.I > 1000 || v.I < -1000) {
+				tbl.Rows[i][j] = gen.Int(v.I % 7)
+			} else if v.K == "list" {
+				// the table outputs wrap a cell that is wider than about 24 characters onto a second line: keep printed lists
+				// short (one-letter words, at most 4 of them; at most 6 one-digit numbers)
+				l := append([]gen.JV{}, v.L...)
+				for k := range l {
+					if l[k].K == "str" {
+						l[k] = gen.Str(l[k].S[:1])
+					}
+				}
+				if len(l) > 0 && l[0].K == "str" && len(l) > 4 {
+					l = l[:4]
+				}
+				if len(l) > 6 {
+					l = l[:6]
+				}
+				tbl.Rows[i][j] = gen.JV{K: "list", L: l}
+			}
+		}
+	}
+}
+
+// c05Table: 1-2 columns of small ints / short words / times (CSV) or integral floats / words / one list column (JSON).
+func c05Table(t *rapid.T, name string, minRows int) gen.TableSpec {
+	tbl := gen.Table(t, gen.TableOpts{Name: name, MinRows: minRows, MaxRows: 12, MaxCols: 2, NoLong: true, Kinds: []string{"int", "str"}, Time: true, Format: rapid.SampledFrom([]string{"csv", "csv", "json"}).Draw(t, "fmt")})
+	if tbl.Format == "json" {
+		// JSON has no ints: use floats with integral values instead of strings only
+		if minRows < 1 {
+			minRows = 1
+		}
+		tbl = gen.Table(t, gen.TableOpts{Name: name, MinRows: minRows, MaxRows: 12, MaxCols: 2, NoLong: true, Kinds: []string{"float", "str"}, Format: "json", List: true})
+	}
+	c05Sanitise(&tbl)
+	return tbl
+}
+
+// c05Modes: every output mode; without csv when a table has a list column (-o csv cannot print a list, octosql reports an
+// error, and nothing in this property is about that).
+func c05Modes(tables []gen.TableSpec) []string {
+	if !tablesHaveList(tables) {
+		return allModes
+	}
+	var out []string
+	for _, m := range allModes {
+		if m != "csv" {
+			out = append(out, m)
+		}
+	}
+	return out
+}
+
+// ---- LIMIT above a join; a filter above a nested ORDER BY + LIMIT ----------------------------------------------------------
+
+// c05QueryCase: a generated query whose expected result the reference evaluator gives (Full rows + LIMIT), observed in every
+// output mode and, for Placement nested / cte, as `SELECT * FROM (<Q>) s` / `WITH w AS (<Q>) SELECT * FROM w w`.
+type c05QueryCase struct {
+	Tables    []gen.TableSpec `json:"tables"`
+	Q         gen.Q           `json:"q"`
+	Placement string          `json:"placement"` // top | nested | cte
+	Modes     []string        `json:"modes"`
+}
+
+func (c c05QueryCase) catalog() model.Catalog {
+	cat := model.Catalog{}
+	for _, t := range c.Tables {
+		cat[t.File()] = t
+	}
+	return cat
+}
+
+func (c c05QueryCase) sql() string {
+	switch c.Placement {
+	case "nested":
+		return "SELECT * FROM (" + c.Q.SQL() + ") s"
+	case "cte":
+		return "WITH w AS (" + c.Q.SQL() + ") SELECT * FROM w w"
+	}
+	return c.Q.SQL()
+}
+
+// c05Observe runs sql in one output mode and compares with res: exactly min(n, N) rows, each of them a row of the full
+// result (multiset inclusion); under a top-level ORDER BY the key sequence too.
+func c05Observe(sql string, files map[string]string, mode string, res model.Result, sequence bool) error {
+	inv := Inv{Files: files, Args: []string{sql, "-o", mode}}
+	check := func(r Res) error {
+		if r.TimedOut {
+			return nil
+		}
+		if r.Exit != 0 {
+			return fmt.Errorf("query fails with -o %s: %s\n  %s", mode, sql, r.Brief())
+		}
+		var got []Row
+		var err error
+		switch mode {
+		case "json":
+			got, err = ParseJSONOutT(r.Stdout)
+		case "csv":
+			got, err = ParseCSVOut(r.Stdout, kindOfCols(res))
+		case "stream_native":
+			got, err = ParseNativeOut(r.Stdout, res.Cols)
+		default:
+			got, err = ParseTableOut(r.Stdout)
+		}
+		if err != nil {
+			return fmt.Errorf("-o %s: %v\n  query: %s", mode, err, sql)
+		}
+		if err := CompareResultSeq(res, got, mode == "csv", sequence); err != nil {
+			return fmt.Errorf("-o %s: %v\n  query: %s", mode, err, sql)
+		}
+		return nil
+	}
+	if err := check(fastRun(inv)); err != nil {
+		return check(Run(inv))
+	}
+	return nil
+}
+
+func c05QueryProp(c c05QueryCase) ev.Outcome {
+	sql := c.sql()
+	res := model.Eval(c.Q, c.catalog())
+	files := map[string]string{}
+	key := sql
+	for _, t := range c.Tables {
+		files[t.File()] = t.Render()
+		key += "|" + t.Render()
+	}
+	o := ev.Outcome{Key: fmt.Sprintf("%s|%v", key, c.Modes)}
+	o.Classes = append(o.Classes, "placement_"+c.Placement)
+	o.Classes = append(o.Classes, listClasses(c.Tables, c.Q)...)
+	o.Classes = append(o.Classes, timeClasses(c.Tables, c.Q)...)
+	wrap := map[string]string{"top": "", "nested": "sub", "cte": "cte"}[c.Placement]
+	if lj := limitAboveJoinClasses(c.Q, res, wrap); lj != nil {
+		o.Classes = append(o.Classes, lj...)
+		dupBoth := 0
+		for _, t := range c.Tables {
+			seen := map[string]bool{}
+			for _, r := range t.Rows {
+				if k := CanonJV(r[0]); r[0].K != "null" && seen[k] {
+					dupBoth++
+					break
+				} else {
+					seen[k] = true
+				}
+			}
+		}
+		if dupBoth >= 2 {
+			o.Classes = append(o.Classes, "duplicate_keys_both_sides")
+		}
+		N := len(res.Full)
+		o.NonTrivial = N >= 2 && (*c.Q.Limit == 0 || *c.Q.Limit >= N || dupBoth >= 1)
+	}
+	if sub := nestedLimited(c.Q); sub != nil {
+		// a filter above a nested ORDER BY + LIMIT: what the cut and the filter do on this input
+		inner := model.Eval(*sub, c.catalog())
+		cut := model.ApplyOrderLimit(inner)
+		o.Classes = append(o.Classes, "filter_above_nested_order_by_limit")
+		if len(c.Q.With) > 0 {
+			o.Classes = append(o.Classes, "limited_query_in_with")
+		}
+		if len(cut) < len(inner.Full) {
+			o.Classes = append(o.Classes, "nested_limit_cuts_rows")
+		}
+		if len(res.Full) < len(cut) {
+			o.Classes = append(o.Classes, "filter_drops_rows_of_the_first_n")
+		}
+		// would filtering BELOW the cut give another answer? (the rows a pushed-down filter would let through)
+		pushed := c.Q
+		pinner := *sub
+		pinner.Limit = nil
+		if len(pushed.With) > 0 {
+			pushed.With = []gen.CTE{{Name: pushed.With[0].Name, Q: pinner}}
+		} else {
+			pushed.From.Sub = &pinner
+		}
+		all := model.Eval(pushed, c.catalog())
+		if len(all.Full) > len(res.Full) && len(res.Full) < *sub.Limit {
+			o.Classes = append(o.Classes, "filter_then_cut_would_differ")
+			o.NonTrivial = true
+		}
+		o.NonTrivial = o.NonTrivial || (len(cut) < len(inner.Full) && len(res.Full) < len(cut))
+	}
+	for _, mode := range c.Modes {
+		if err := c05Observe(sql, files, mode, res, c.Placement == "top"); err != nil {
+			return ev.Outcome{Err: err}
+		}
+		o.Classes = append(o.Classes, "mode_"+mode)
+	}
+	return o
+}
+
+// nestedLimited returns the ORDER BY + LIMIT query directly under q (FROM subquery or WITH), if q has that shape.
+func nestedLimited(q gen.Q) *gen.Q {
+	var sub *gen.Q
+	switch {
+	case q.From.Kind == "sub":
+		sub = q.From.Sub
+	case q.From.Kind == "cte" && len(q.With) == 1:
+		sub = &q.With[0].Q
+	}
+	if sub == nil || sub.Limit == nil || len(sub.OrderBy) == 0 || q.Where == nil {
+		return nil
+	}
+	return sub
 }
 
 // ---- live_table redraws ----------------------------------------------------------------------------------------------
@@ -210,31 +427,43 @@ func c05LiveProp(c c05LiveCase) ev.Outcome {
 func TestC05(t *testing.T) {
 	r := ev.New("C05", "exploration",
 		"row multisets with duplicates (1-2 columns of small ints / short ASCII words / - a fifth of the CSV tables - times: one instant in several zone spellings, which tie under ORDER BY; NULLs, 0..12 rows) x n in 0..rows+2 x ORDER BY none/asc/desc x placement top-level / subquery in FROM / WITH x plain or retracting input (GROUP BY ... TRIGGER COUNTING 1 underneath) x "+
-			"all five output modes on every case; oracle: exactly min(n,N) rows, sub-multiset of the full result, sorted key sequence equal to the first n keys counting duplicates individually. "+
-			"non-trivial: n=0, n>=N, duplicates straddling the cut, or n<N with duplicate rows. distinct=(query, file, modes). live_table_redraw: 400k-700k row inputs so that live_table redraws before the end (non-trivial when it did); the final table must hold exactly the limited, ordered rows",
+			"all five output modes on every case (about a quarter of the JSON tables carry one list column ([Float] or [String]; cells from a pool of prefix-related lists [] [1] [1,2] [1,2,3] [1,2,3,4] [1,3] [2] [2,1], so proper-prefix pairs with length gaps of 1 and >=2 are the normal case, plus twin rows that differ only in a prefix-related list cell), as ORDER BY key or payload; such tables are not printed with -o csv, which cannot print a list); oracle: exactly min(n,N) rows, sub-multiset of the full result, sorted key sequence equal to the first n keys counting duplicates individually. "+
+			"non-trivial: n=0, n>=N, duplicates straddling the cut, or n<N with duplicate rows. distinct=(query, file, modes). limit_above_join: `SELECT <every column> FROM a JOIN b ON a.k = b.k LIMIT n` (inner / LOOKUP) over two tables of 3-7 rows from a 3-value key pool, n in 0..3 or 0..N+1, top level / FROM-subquery / WITH, every output mode: exactly min(n,N) rows, each a row of the full join (multiset inclusion; stream_native consolidated); non-trivial: N>=2 and (n=0, n>=N or duplicate keys). filter_above_nested_order_limit: `SELECT cols FROM (SELECT cols FROM t ORDER BY <all projected columns> LIMIT n) s WHERE <predicate>` (or through WITH), every output mode, equal multisets with the reference evaluator (first n rows of the total order, then the filter); non-trivial: the cut drops rows and the filter drops rows of the first n. live_table_redraw: 400k-700k row inputs so that live_table redraws before the end (non-trivial when it did); the final table must hold exactly the limited, ordered rows",
 		"values are ints, NULL, quote/separator-free ASCII words and times (printed as bare RFC3339 text, compared as instants) so the table and stream_native renderings parse unambiguously; tables are decoded from the last table printed")
-	ev.Check(t, r, "limit_order_modes", ev.N(1600, 30000), func(t *rapid.T) c05Case {
-		tbl := gen.Table(t, gen.TableOpts{Name: "tab", MinRows: 0, MaxRows: 12, MaxCols: 2, NoLong: true, Kinds: []string{"int", "str"}, Time: true, Format: rapid.SampledFrom([]string{"csv", "csv", "json"}).Draw(t, "fmt")})
-		if tbl.Format == "json" {
-			// JSON has no ints: use floats with integral values instead of strings only
-			tbl = gen.Table(t, gen.TableOpts{Name: "tab", MinRows: 1, MaxRows: 12, MaxCols: 2, NoLong: true, Kinds: []string{"float", "str"}, Format: "json"})
-		}
-		for i := range tbl.Rows {
-			for j := range tbl.Rows[i] {
-				if v := tbl.Rows[i][j]; v.K == "str" {
-					tbl.Rows[i][j] = gen.Str(map[bool]string{true: "xa", false: "yb"}[len(v.S)%2 == 0] + v.S[:1])
-				} else if v.K == "int" && (v.I > 1000 || v.I < -1000) {
-					tbl.Rows[i][j] = gen.Int(v.I % 7)
-				}
-			}
-		}
-		c := c05Case{Table: tbl, Modes: allModes}
+	ev.Check(t, r, "limit_order_modes", ev.N(1200, 24000), func(t *rapid.T) c05Case {
+		tbl := c05Table(t, "tab", 0)
+		c := c05Case{Table: tbl, Modes: c05Modes([]gen.TableSpec{tbl})}
 		c.N = rapid.IntRange(0, len(tbl.Rows)+2).Draw(t, "n")
 		c.Order = rapid.SampledFrom([]string{"", "asc", "desc"}).Draw(t, "order")
 		c.Placement = rapid.SampledFrom([]string{"top", "top", "nested", "cte"}).Draw(t, "placement")
 		c.Retract = rapid.IntRange(0, 3).Draw(t, "retract") == 0 && len(tbl.Rows) > 0
 		return c
 	}, c05Prop)
+	ev.Check(t, r, "limit_above_join", ev.N(250, 5000), func(t *rapid.T) c05QueryCase {
+		tables := gen.JoinTablesWith(t, 2, gen.JoinTablesOpts{List: true, MinRows: 3})
+		for i := range tables {
+			c05Sanitise(&tables[i])
+		}
+		q := gen.JoinLimitQuery(t, tables, "q")
+		c := c05QueryCase{Tables: tables, Q: q, Modes: c05Modes(tables)}
+		N := len(model.Eval(q, c.catalog()).Full)
+		lim := rapid.IntRange(0, 3).Draw(t, "limn")
+		if rapid.IntRange(0, 2).Draw(t, "limwide") == 0 {
+			hi := N + 1
+			if hi > 40 {
+				hi = 40
+			}
+			lim = rapid.IntRange(0, hi).Draw(t, "limn2")
+		}
+		c.Q.Limit = &lim
+		c.Placement = rapid.SampledFrom([]string{"top", "top", "nested", "cte"}).Draw(t, "placement")
+		return c
+	}, c05QueryProp)
+	ev.Check(t, r, "filter_above_nested_order_limit", ev.N(200, 4000), func(t *rapid.T) c05QueryCase {
+		tbl := c05Table(t, "tab", 2)
+		q := gen.LimitedSubFilter(t, tbl, gen.SubFilterOpts{Plain: true}, "q")
+		return c05QueryCase{Tables: []gen.TableSpec{tbl}, Q: q, Placement: "top", Modes: c05Modes([]gen.TableSpec{tbl})}
+	}, c05QueryProp)
 	ev.Check(t, r, "live_table_redraw", ev.N(16, 300), func(t *rapid.T) c05LiveCase {
 		return c05LiveCase{Rows: rapid.SampledFrom([]int{700000, 1500000}).Draw(t, "rows"), N: rapid.IntRange(0, 6).Draw(t, "n"),
 			Order: rapid.SampledFrom([]string{"", "asc", "desc"}).Draw(t, "order"), Mod: rapid.SampledFrom([]int{3, 1000, 1000003}).Draw(t, "mod")}
